@@ -27,6 +27,9 @@ RULE = (
     "NONE, nomask, all-false, same physical mask, raw-equal bits, one-bit-different, full) x grid layouts (unset, "
     "NoGrid, uniform with axes_reversed / axes_increase combinations, cell and point data) through Info.accepts "
     "(both directions), masks_compatible and a real Output >> Input exchange (bare and via Composition.connect); "
+    "SEQUENCES on one re-used Info object (prepare flat/shaped/time-axis interleaved with info.grid = other order / "
+    "layout, info.mask = ..., copy_with, copy.copy, Info.accepts): every prepare must equal the result under a fresh "
+    "Info with the current fields and the model evaluated on the current fields; "
     "non-trivial = partial mask (neither empty nor full) for round-trip/prepare cases, two explicit masks on "
     "different layouts for acceptance cases; distinct by canonical case hash"
 )
@@ -383,6 +386,61 @@ def _gen_accept_sweep(dims_list):
     return cases
 
 
+SEQ_SHAPES = [[2, 2], [3, 2], [2, 3], [3, 2], [2, 3], [2, 2, 2], [3, 2, 2], [2, 3, 2], [3], [4, 3]]
+
+
+def _seq_gridk(rng, shape):
+    ks = ["cells", "cells", "cells_rev"] + (["points"] if min(shape) >= 2 else [])
+    return rng.choice(ks)
+
+
+def _gen_seq(rng, ncases):
+    """one re-used Info object: prepare / attribute assignment / copy_with / copy / accepts interleaved"""
+    cases = []
+    for j in range(ncases):
+        shape = rng.choice(SEQ_SHAPES)
+        n = _size(shape)
+
+        def rmask(p=None):
+            r = rng.random()
+            if r < 0.08:
+                return rng.choice(["nomask", "flex", "none"])
+            q = p if p is not None else rng.choice([0.3, 0.5])
+            return {"shape": shape, "bits": [rng.random() < q for _ in range(n)]}
+
+        order = rng.choice("CF")
+        init = {"order": order, "gridk": _seq_gridk(rng, shape), "mask": rmask()}
+        ops = []
+        cur_order = order
+        for _ in range(rng.randint(3, 9)):
+            r = rng.random()
+            if r < 0.45 or not ops:
+                form = rng.choice(["flat", "flat", "flat", "shaped", "timed"])
+                ops.append(["prepare", form, _vals(rng, n), rng.random() < 0.3])
+            elif r < 0.72:
+                cur_order = ("C" if cur_order == "F" else "F") if rng.random() < 0.75 else cur_order
+                ops.append(["set_grid", cur_order, _seq_gridk(rng, shape)])
+            elif r < 0.80:
+                ops.append(["set_mask", rmask()])
+            elif r < 0.88:
+                g = None
+                if rng.random() < 0.6:
+                    cur_order = rng.choice("CF")
+                    g = [cur_order, _seq_gridk(rng, shape)]
+                ops.append(["copy_with", g, rmask() if rng.random() < 0.5 else None])
+            elif r < 0.94:
+                ops.append(["copy"])
+            else:
+                ops.append(["accepts", rmask() if rng.random() < 0.7 else rng.choice(["unset", "flex", "none", "nomask"]),
+                            rng.random() < 0.5])
+        if j % 3 == 0:  # make sure the tail is a flat prepare after a change of the memory order
+            cur_order = "C" if cur_order == "F" else "F"
+            ops.append(["set_grid", cur_order, _seq_gridk(rng, shape)])
+            ops.append(["prepare", "flat", _vals(rng, n), False])
+        cases.append({"k": "seq", "shape": shape, "init": init, "ops": ops})
+    return cases
+
+
 _M = lambda shape, bits: {"shape": shape, "bits": [bool(b) for b in bits]}  # noqa: E731
 _U = lambda rev, inc, loc="points": {"kind": "uniform", "rev": rev, "inc": inc, "loc": loc}  # noqa: E731
 
@@ -406,6 +464,14 @@ CORPUS = [
      "im": _M([2, 2], [1, 0, 0, 0]), "ig": None, "dims": [2, 2], "via": "bare"},
     {"k": "accept", "sm": _M([2, 2], [1, 0, 0, 0]), "sg": None, "im": _M([2, 2], [0, 0, 0, 1]),
      "ig": {"kind": "nogrid", "shape": [2, 2]}, "down": False, "dims": [2, 2]},
+    # seeded mutant C18_a: memoized flat mask not reset by the grid setter (re-used Info, F -> C)
+    {"k": "seq", "shape": [3, 2], "init": {"order": "F", "gridk": "cells", "mask": _M([3, 2], [1, 1, 0, 0, 0, 0])},
+     "ops": [["prepare", "flat", [0, 1, 2, 3, 4, 5], False], ["set_grid", "C", "cells"],
+             ["prepare", "flat", [0, 1, 2, 3, 4, 5], False], ["prepare", "shaped", [0, 1, 2, 3, 4, 5], True]]},
+    {"k": "seq", "shape": [2, 2, 2], "init": {"order": "C", "gridk": "points", "mask": _M([2, 2, 2], [1, 0, 0, 0, 0, 0, 1, 1])},
+     "ops": [["prepare", "flat", list(range(8)), True], ["copy"], ["set_grid", "F", "cells_rev"],
+             ["accepts", _M([2, 2, 2], [1, 0, 0, 0, 0, 0, 1, 1]), False], ["prepare", "flat", list(range(8)), False],
+             ["set_mask", _M([2, 2, 2], [0, 1, 1, 0, 0, 0, 0, 0])], ["prepare", "flat", list(range(8)), False]]},
     # nobody provides a mask (ecd57a4)
     {"k": "exchange", "om": "unset", "og": _U(False, [True, True]), "im": "unset", "ig": _U(False, [True, True]),
      "dims": [2, 3], "via": "bare"},
@@ -431,6 +497,7 @@ def generate(rng, tier):
         cases += _gen_prepare(rng, QUICK_SHAPES, 16)
         cases += _gen_accept(rng, 700)
         cases += _gen_accept_sweep([[2], [2, 2]])[::3]
+        cases += _gen_seq(rng, 500)
     else:
         cases += _gen_round_sweep(rng, QUICK_SHAPES + THOROUGH_SHAPES, full=True)
         cases += _gen_round_misc(rng, 3000)
@@ -438,6 +505,7 @@ def generate(rng, tier):
         cases += _gen_prepare(rng, QUICK_SHAPES + THOROUGH_SHAPES, 40)
         cases += _gen_accept(rng, 12000)
         cases += _gen_accept_sweep([[2], [3], [2, 2], [3, 2]])
+        cases += _gen_seq(rng, 10000)
     return cases
 
 
@@ -618,8 +686,78 @@ def _run_exchange_comp(c, oi, ii):
             "via": "comp"}
 
 
+def _seq_grid(shape, order, gk):
+    return _prepare_grid({"shape": shape, "order": order, "grid": gk})
+
+
+def _prep_obs(shape, form, vals, quant, info):
+    shape = tuple(shape)
+    pshape = {"flat": (_size(shape),), "shaped": shape, "timed": (1,) + shape}[form]
+    p = np.array(vals, dtype=np.float64).reshape(pshape)
+    if quant:
+        p = fm.UNITS.Quantity(p, "m")
+    try:
+        r = fm.data.prepare(p, info)
+    except Exception as e:  # noqa
+        return {"err": err_class(e)}
+    m = r.magnitude
+    if tuple(int(x) for x in m.shape) != (1,) + shape:
+        return {"err": "shape"}
+    masked = bool(np.ma.isMaskedArray(m))
+    dat = np.asarray(m.data if masked else m)[0].reshape(-1).tolist()
+    return {"data": [int(v) for v in dat],
+            "mask": [bool(b) for b in np.ma.getmaskarray(m)[0].reshape(-1).tolist()] if masked else None}
+
+
+def _run_seq(c):
+    import copy as _copy
+
+    shape = c["shape"]
+    cur = dict(c["init"])
+    info = fm.Info(time=T(0), grid=_seq_grid(shape, cur["order"], cur["gridk"]), units="m", mask=_py_mask(cur["mask"]))
+    steps = []
+    for op in c["ops"]:
+        try:
+            if op[0] == "prepare":
+                o = _prep_obs(shape, op[1], op[2], op[3], info)
+                fresh = fm.Info(time=T(0), grid=_seq_grid(shape, cur["order"], cur["gridk"]), units="m",
+                                mask=_py_mask(cur["mask"]))
+                o["fresh"] = _prep_obs(shape, op[1], op[2], op[3], fresh)
+                steps.append(["prep", o])
+            elif op[0] == "set_grid":
+                info.grid = _seq_grid(shape, op[1], op[2])
+                cur["order"], cur["gridk"] = op[1], op[2]
+                steps.append(["none"])
+            elif op[0] == "set_mask":
+                info.mask = _py_mask(op[1])
+                cur["mask"] = op[1]
+                steps.append(["none"])
+            elif op[0] == "copy_with":
+                kw = {}
+                if op[1] is not None:
+                    kw["grid"] = _seq_grid(shape, op[1][0], op[1][1])
+                    cur["order"], cur["gridk"] = op[1]
+                if op[2] is not None:
+                    kw["mask"] = _py_mask(op[2])
+                    cur["mask"] = op[2]
+                info = info.copy_with(**kw)
+                steps.append(["none"])
+            elif op[0] == "copy":
+                info = _copy.copy(info)
+                steps.append(["none"])
+            else:
+                other = fm.Info(time=T(0), grid=info.grid, units="m", mask=_py_mask(op[1]))
+                fail = {}
+                info.accepts(other, fail, incoming_donwstream=op[2])
+                steps.append(["acc", "mask" not in fail])
+        except Exception as e:  # noqa
+            steps.append(["err", err_class(e)])
+    return {"steps": steps, "final_mask": _obs_mask(info.mask)}
+
+
 def run_impl(case):
-    return {"round": _run_round, "prepare": _run_prepare, "accept": _run_accept, "exchange": _run_exchange}[case["k"]](case)
+    return {"round": _run_round, "prepare": _run_prepare, "accept": _run_accept, "exchange": _run_exchange,
+            "seq": _run_seq}[case["k"]](case)
 
 
 # ----------------------------------------------------------------------------------------------
@@ -665,8 +803,35 @@ def _gspec(g):
     return Some(C("GStruct", B(g["rev"]), _bits(g["inc"])))
 
 
+def _seq_gspec(gk, rank):
+    return C("GStruct", B(gk == "cells_rev"), _bits([True] * rank))
+
+
+_FORM = {"flat": "Flat", "shaped": "Shaped", "timed": "Timed"}
+
+
+def _seq_op(op, rank):
+    if op[0] == "prepare":
+        return C("IPrepare", _FORM[op[1]], L(Z(v) for v in op[2]))
+    if op[0] == "set_grid":
+        return C("ISetGrid", _order(op[1]), _seq_gspec(op[2], rank))
+    if op[0] == "set_mask":
+        return C("ISetMask", _mspec(op[1]))
+    if op[0] == "copy_with":
+        g = NONE if op[1] is None else Some(P(_order(op[1][0]), _seq_gspec(op[1][1], rank)))
+        return C("ICopyWith", g, NONE if op[2] is None else Some(_mspec(op[2])))
+    if op[0] == "copy":
+        return "ICopy"
+    return C("IAccepts", _mspec(op[1]), B(op[2]))
+
+
 def coq_case(case, obs):
     k = case["k"]
+    if k == "seq":
+        rank = len(case["shape"])
+        i = case["init"]
+        st = C("mkinfo", _shape(case["shape"]), _order(i["order"]), _seq_gspec(i["gridk"], rank), _mspec(i["mask"]))
+        return C("KSeq", st, L(_seq_op(op, rank) for op in case["ops"]))
     if k == "round":
         return C("KRound", _shape(case["shape"]), _order(case["order"]), L(Z(v) for v in case["vals"]),
                  _own(case["own"]), _mspec(case["arg"]), B(case["kw"]))
@@ -685,6 +850,21 @@ def _optz(v):
 
 def coq_obs(case, obs):
     k = case["k"]
+    if k == "seq":
+        out = []
+        for st in obs["steps"]:
+            if st[0] == "prep":
+                o = st[1]
+                if "err" in o:
+                    return C("OOther", N(4))
+                out.append(C("SPrep", L(Z(v) for v in o["data"]), NONE if o["mask"] is None else Some(_bits(o["mask"]))))
+            elif st[0] == "acc":
+                out.append(C("SAcc", B(st[1])))
+            elif st[0] == "none":
+                out.append("SNothing")
+            else:
+                return C("OOther", N(5))
+        return C("OSeq", L(out))
     if "err" in obs or "comp_err" in obs:
         return C("OOther", N(1))
     if k == "round":
@@ -817,12 +997,55 @@ def _mon_exchange(c, o):
     return None
 
 
+def _mon_seq(c, o):
+    cur = dict(c["init"])
+    for i, (op, st) in enumerate(zip(c["ops"], o["steps"])):
+        if st[0] == "err":
+            return f"step {i} {op[0]} raised {st[1]}"
+        if op[0] == "prepare":
+            ob = st[1]
+            pc = {"shape": c["shape"], "order": cur["order"], "form": op[1], "vals": op[2], "own": None, "im": cur["mask"]}
+            f = _mon_prepare(pc, ob)
+            if f:
+                return f"step {i} (re-used Info, current grid order {cur['order']}): {f}"
+            if {k: v for k, v in ob.items() if k != "fresh"} != ob["fresh"]:
+                return (f"step {i}: prepare under the re-used Info gives mask {ob.get('mask')}, a fresh Info with the "
+                        f"same fields gives {ob['fresh'].get('mask')}")
+        elif op[0] == "set_grid":
+            cur["order"], cur["gridk"] = op[1], op[2]
+        elif op[0] == "set_mask":
+            cur["mask"] = op[1]
+        elif op[0] == "copy_with":
+            if op[1] is not None:
+                cur["order"], cur["gridk"] = op[1]
+            if op[2] is not None:
+                cur["mask"] = op[2]
+        elif op[0] == "accepts":
+            g = {"kind": "uniform", "rev": cur["gridk"] == "cells_rev", "inc": [True] * len(c["shape"]), "loc": "cells"}
+            if op[2]:
+                exp = _doc_accepts(op[1], cur["mask"], g, g)
+            else:
+                exp = _doc_accepts(cur["mask"], op[1], g, g)
+            exp_ok = cur["mask"] == "unset" or exp or (op[2] and op[1] == "unset")
+            if st[1] != exp_ok:
+                return f"step {i}: Info.accepts mask verdict {st[1]}, expected {exp_ok}"
+    if o["final_mask"] != cur["mask"]:
+        return "the info's mask field differs from the last assigned mask"
+    return None
+
+
 def monitor(case, obs):
-    return {"round": _mon_round, "prepare": _mon_prepare, "accept": _mon_accept, "exchange": _mon_exchange}[case["k"]](case, obs)
+    return {"round": _mon_round, "prepare": _mon_prepare, "accept": _mon_accept, "exchange": _mon_exchange,
+            "seq": _mon_seq}[case["k"]](case, obs)
 
 
 def nontrivial(case, obs):
     k = case["k"]
+    if k == "seq":
+        kinds = [op[0] for op in case["ops"]]
+        changed = any(x in kinds for x in ("set_grid", "set_mask", "copy_with"))
+        im = case["init"]["mask"]
+        return changed and kinds.count("prepare") >= 2 and _is_bits(im) and any(im["bits"]) and not all(im["bits"])
     if k == "round":
         eff = case["own"] if case["own"] is not None else case["arg"]
         bits = eff if isinstance(eff, list) else (eff["bits"] if _is_bits(eff) else None)
@@ -856,6 +1079,11 @@ def distribution(cases, obss):
 
 def shrink_candidates(case):
     k = case["k"]
+    if k == "seq":
+        ops = case["ops"]
+        for i in range(len(ops) - 1, -1, -1):
+            yield dict(case, ops=ops[:i] + ops[i + 1:])
+        return
     if k in ("round", "prepare"):
         shape = case["shape"]
         # drop one axis entry (shrinks the arrays consistently for simple cases only)
